@@ -23,7 +23,7 @@ type SNode struct {
 	Text  string
 }
 
-var isRe = regexp.MustCompile(`([A-Za-z_][A-Za-z0-9_.]*(?:\([^()]*\))?(?:\.[A-Za-z_][A-Za-z0-9_]*)*)\s+is\s+(\*?[A-Za-z_][A-Za-z0-9_.]*)`)
+var isRe = regexp.MustCompile(`([A-Za-z_][A-Za-z0-9_.]*(?:\([^()]*\)|\[[^\[\]]*\])*(?:\.[A-Za-z_][A-Za-z0-9_]*(?:\[[^\[\]]*\])?)*)\s+is\s+(\*?[A-Za-z_][A-Za-z0-9_.]*)`)
 
 func ParseSpec(s string) (*SNode, error) {
 	s = strings.TrimSpace(s)
